@@ -16,7 +16,7 @@ ENGINE_MODEL_DEPS = ["Model/MachineCheck.v"]
 SPECS = {
     "C01": dict(
         level="proof",
-        props_deps=["Proofs/Promise.v", "Proofs/Trampoline.v", "Proofs/FuelMono.v"],
+        props_deps=["Proofs/Promise.v", "Proofs/Trampoline.v", "Proofs/FuelMono.v", "Proofs/ForceComplete.v"],
         model_deps=ENGINE_MODEL_DEPS,
         trusted=ENGINE_TRUSTED,
         assumptions=["programs that build cyclic terms are outside the quantifier (the engine dies on them); such cases are dropped and counted",
@@ -170,7 +170,7 @@ SPECS = {
     ),
     "C07": dict(
         level="proof",
-        props_deps=["Proofs/ArithInt.v", "Proofs/FloatKernels.v", "Gen/Arith_gen.v"],
+        props_deps=["Proofs/ArithInt.v", "Proofs/FloatKernels.v", "Proofs/FloatToInt.v", "Gen/Arith_gen.v"],
         model_deps=["Model/EvalCheck.v"],
         trusted=COMMON_TRUSTED + [
             "Flocq 4 IEEE754.Binary/Bits as the meaning of float64 + - * / comparisons, float64(int64), math.Floor/Ceil/Trunc/Round",
